@@ -348,8 +348,12 @@ var stringPool = []string{
 var rarePool = []string{"del\u007f"}
 
 func genString(r *rand.Rand) string {
-	if r.Intn(400) == 0 {
+	switch r.Intn(1200) {
+	case 0, 1, 2:
 		return rarePool[r.Intn(len(rarePool))]
+	case 3:
+		// a size class of its own: crosses buffer, gzip window and HTTP chunk boundaries
+		return strings.Repeat(stringPool[3+r.Intn(len(stringPool)-3)], 1<<uint(10+r.Intn(5)))
 	}
 	switch r.Intn(10) {
 	case 0, 1, 2, 3, 4:
